@@ -276,3 +276,8 @@ Definition unrel_frame (id no : N) (msg : bytes) : option mframe :=
   if mux_max_frame_data <? len msg then None
   else Some {| mf_id := id; mf_req := false; mf_resp := false; mf_rel := false; mf_ack := false;
                mf_fin := false; mf_rtr := false; mf_ackno := 0; mf_no := no mod two32; mf_data := msg |}.
+
+(* ------------------------------------------------------------------ specification side: instances *)
+(* the (ghost) instance that would handle frame f in state m *)
+Definition handler_epoch (m : mux) (f : mframe) : option N :=
+  match get_tube m (mf_rel f) (mf_id f) with Some t => Some (t_epoch t) | None => None end.
